@@ -71,7 +71,7 @@ def run(tier, seed):
         c.notes.append("translator failed: " + V.tail(log, 10))
     # one make for everything (parallel), then the four statement files are re-checked concurrently with the
     # streams: each c.prove then finds its dependencies up to date and only recompiles its (small) props file
-    ALLPROPS = [PROPS, TIE, "props/C08b.v", "props/C08c.v", "props/C08d.v"]
+    ALLPROPS = [PROPS, TIE, "props/C08b.v", "props/C08c.v", "props/C08d.v", "props/C08e.v"]
     V.coq_make(DEPS + ["integ/CliTotalRun.v"] + ALLPROPS, timeout=3000)
     import threading
     pres = {}
